@@ -566,7 +566,11 @@ def diff_stage(rep, name, cases, judge, expand=None, max_report=5):
             fine.append((c, i, m))
     concrete = 0
     for c, i, m in fine:
-        v = judge(c, i, m)
+        try:
+            v = judge(c, i, m)
+        except Exception as e:       # an oracle that cannot read an unexpected output must not end the search for a concrete input
+            rep.cov.setdefault("oracle_errors", []).append({"correspondence": name, "case": c[:300], "error": repr(e)[:200]})
+            v = None
         if v is not None:
             concrete += 1
             if concrete <= max_report:
